@@ -27,6 +27,31 @@ CLAIMED = {
              "programs from a 13-rule catalogue; random programs arity<=3, <=4 rules."),
 }
 
+AUTHZ_NOTE = ("Trusted: TLC; the harness embedding of model constants/predicates into concrete terms and symbol names; error-class "
+              "mapping via errors.Is on the exported sentinels. Bounds: catalogues of 3-5 facts, 2-5 rules, 2-5 checks, 3-5 policies per scope, "
+              "<=2 later blocks, policy lists <=2; every combination (quick 31k-90k instances) / 700k+ (thorough).")
+for _p, _t, _tech in [
+    ("C02", "Authz.tla transcribes Authorize step by step (Proc) next to the declarative decision procedure; TLC proves Monotone "
+            "(Verdict(T+B)=ok => Verdict(T)=ok) for every instance and refutes it in the negative model (policies after blocks on a shared "
+            "world). Every instance is replayed: T, T+B1, T+B1+B2 are built with the real builders and authorized; each verdict must be the "
+            "specification's and the chain must be monotone; unrelated authorizer facts vary the slice capacity behind World.Clone.",
+     "TLA+ step model of Authorize + TLC theorem Monotone over all catalogue instances; spec->code replay of every instance"),
+    ("C03", "TLC proves Scoped / Visible / SameWorld / OrderFree for every two-later-block instance (and refutes Scoped without the private "
+            "world copy). Replay authorizes the token, the token with each block reduced to its checks, and the token with blocks swapped, "
+            "and runs a panel of authorizer queries: verdicts, authority-level facts and query results must be identical and equal the model.",
+     "TLA+ step model + TLC theorems Scoped/Visible/OrderFree; spec->code replay with stripped and swapped variants"),
+    ("C04", "TLC proves that the step procedure computes the declarative RefVerdict (all checks in scope, first matching policy, check "
+            "failure precedence) on every instance and refutes it when authority rules stay active in block scope. Each instance's verdict "
+            "class on the real library (token in memory or through Serialize/Unmarshal, symbols re-interned) must be RefVerdict.",
+     "TLA+ declarative decision procedure vs step model (TLC), spec->code replay of every instance"),
+    ("C12", "Order independence is a theorem of the model by construction (sets) and of the operational join model (all fact-list orders, "
+            "C05). Replay presents every instance shuffled (facts, rules, checks, queries), with duplicated facts, renamed variables and "
+            "Authorize called twice, and evaluates catalogue and random Datalog programs in several fact/rule orders: all must give the "
+            "single specification outcome and derived fact set (TLC trace validation).",
+     "TLA+ model (set semantics) + TLC; spec->code replay of permuted presentations; TLC trace validation of permuted programs"),
+]:
+    CLAIMED[_p] = dict(category="model_checking", text=_t, design="6/" + _p, technique=_tech, note=AUTHZ_NOTE)
+
 PENDING_REASON = "check under construction in this round (specification module not yet bound to the code); not claimed until it runs green"
 
 
